@@ -3,7 +3,7 @@
 import json, os, re
 V = os.path.dirname(os.path.dirname(os.path.abspath(__file__)))
 d = json.load(open(os.path.join(V, 'seeded', 'index.json')))
-ROUND = {1: 1, 2: 1, 3: 2, 4: 2, 5: 3, 6: 3, 7: 4, 8: 4}
+ROUND = {1: 1, 2: 1, 3: 2, 4: 2, 5: 3, 6: 3, 7: 4, 8: 4, 9: 5, 10: 5, 11: 6, 12: 6}
 out = []
 stats = {}
 for k, r in sorted(d.items()):
